@@ -90,7 +90,7 @@ theorem fam1_const (p : SuFam1.P) (x τ : ℝ) :
 
 /-- inside the clamps (`tiny ≤ η ≤ 1 - tiny`) one leaf of a traced wavenumber is the documented formula:
 the branch contradicts the bounds, or sits on the lower clamp (then η = tiny), or is the unclamped one -/
-macro "su_inside " e:term : tactic =>
+macro "epv_semi_su_inside " e:term : tactic =>
   `(tactic| first
     | (exfalso; linarith)
     | (have he : $e = (6338253001141147 : ℝ) / 633825300114114700748351602688 :=
@@ -99,7 +99,7 @@ macro "su_inside " e:term : tactic =>
     | epv_semi_su_eq)
 
 /-- a traced wavenumber is non-negative on every leaf (η > tiny > 0 where the leaf mentions η) -/
-macro "su_nonneg " e:term : tactic =>
+macro "epv_semi_su_nonneg " e:term : tactic =>
   `(tactic| first
     | positivity
     | (have : (0 : ℝ) < $e := by linarith
@@ -112,18 +112,15 @@ theorem fam1_g_inside (p : SuFam1.P) (x τ : ℝ) (h0 : tiny ≤ p.eta) (h1 : p.
     SuFam1.g p x τ = p.eta * Real.sqrt (p.epsilon + 1 / (1 - p.eta * p.eta)) := by
   unfold tiny at h0
   unfold oneMinusTiny at h1
-  simp only [epv_tree]
-  split_ifs <;> simp only [epv_cond, not_le] at * <;> simp only [epv_leaf] <;> su_inside p.eta
+  epv_semi_su_split <;> epv_semi_su_inside p.eta
 
 /-- bridge: the traced θ₁ is arccos √(3/(3+4γ₁²)) of the traced γ₁ -/
 theorem fam1_th_eq (p : SuFam1.P) (x τ : ℝ) :
     SuFam1.th p x τ = Real.arccos (Real.sqrt (3 / (3 + 4 * SuFam1.g p x τ ^ 2))) := by
-  simp only [epv_tree]
-  split_ifs <;> simp only [epv_leaf] <;> epv_semi_su_eq
+  epv_semi_su_split <;> epv_semi_su_eq
 
 theorem fam1_g_nonneg (p : SuFam1.P) (x τ : ℝ) : 0 ≤ SuFam1.g p x τ := by
-  simp only [epv_tree]
-  split_ifs <;> simp only [epv_cond, not_le] at * <;> simp only [epv_leaf] <;> su_nonneg p.eta
+  epv_semi_su_split <;> epv_semi_su_nonneg p.eta
 
 theorem fam1_dispersion (p : SuFam1.P) (x τ : ℝ) (hε : 0 ≤ p.epsilon)
     (h0 : tiny ≤ p.eta) (h1 : p.eta ≤ oneMinusTiny) :
@@ -146,8 +143,7 @@ theorem fam1_integrand (p : SuFam1.P) (x τ : ℝ) :
   change SuFam1.upart1 p x τ = mode (1 / max tiny (p.eta * Real.sqrt (3 + 4 * SuFam1.g p x τ ^ 2)))
     (p.eta * p.eta) (SuFam1.g p x τ) (SuFam1.th p x τ) x τ
   unfold tiny mode
-  simp only [epv_tree]
-  split_ifs <;> simp only [epv_cond] at * <;> simp only [epv_leaf] <;> epv_semi_su_clamp
+  epv_semi_su_split <;> epv_semi_su_clamp
 
 /-! ### family 2 : upart2, vpart2,  s₂ = 1 + 1/(εη) -/
 
@@ -156,17 +152,14 @@ theorem fam2_g_inside (p : SuFam2.P) (x τ : ℝ) (h0 : tiny ≤ p.eta) (h1 : p.
     SuFam2.g p x τ = Real.sqrt ((1 - p.eta) * (p.epsilon + 1 / p.eta)) := by
   unfold tiny at h0
   unfold oneMinusTiny at h1
-  simp only [epv_tree]
-  split_ifs <;> simp only [epv_cond, not_le] at * <;> simp only [epv_leaf] <;> su_inside p.eta
+  epv_semi_su_split <;> epv_semi_su_inside p.eta
 
 theorem fam2_th_eq (p : SuFam2.P) (x τ : ℝ) :
     SuFam2.th p x τ = Real.arccos (Real.sqrt (3 / (3 + 4 * SuFam2.g p x τ ^ 2))) := by
-  simp only [epv_tree]
-  split_ifs <;> simp only [epv_leaf] <;> epv_semi_su_eq
+  epv_semi_su_split <;> epv_semi_su_eq
 
 theorem fam2_g_nonneg (p : SuFam2.P) (x τ : ℝ) : 0 ≤ SuFam2.g p x τ := by
-  simp only [epv_tree]
-  split_ifs <;> simp only [epv_cond, not_le] at * <;> simp only [epv_leaf] <;> su_nonneg p.eta
+  epv_semi_su_split <;> epv_semi_su_nonneg p.eta
 
 theorem fam2_dispersion (p : SuFam2.P) (x τ : ℝ) (hε : 0 < p.epsilon)
     (h0 : tiny ≤ p.eta) (h1 : p.eta ≤ oneMinusTiny) :
@@ -192,16 +185,14 @@ theorem fam2_integrand_u (p : SuFam2.P) (x τ : ℝ) :
   change SuFam2.upart2 p x τ = mode (1 / max tiny (p.eta * (1 + p.epsilon * p.eta) * Real.sqrt (3 + 4 * SuFam2.g p x τ ^ 2)))
     (1 / max tiny (p.eta * p.epsilon)) (SuFam2.g p x τ) (SuFam2.th p x τ) x τ
   unfold tiny mode
-  simp only [epv_tree]
-  split_ifs <;> simp only [epv_cond] at * <;> simp only [epv_leaf] <;> epv_semi_su_clamp
+  epv_semi_su_split <;> epv_semi_su_clamp
 
 theorem fam2_integrand_v (p : SuFam2.P) (x τ : ℝ) :
     SuFam2.vpart2 p x τ = mode (W_v2 p) (s2' p) (SuFam2.g p 0 0) (SuFam2.th p 0 0) x τ := by
   change SuFam2.vpart2 p x τ = mode (1 / max tiny (p.eta * Real.sqrt (3 + 4 * SuFam2.g p x τ ^ 2)))
     (1 / max tiny (p.eta * p.epsilon)) (SuFam2.g p x τ) (SuFam2.th p x τ) x τ
   unfold tiny mode
-  simp only [epv_tree]
-  split_ifs <;> simp only [epv_cond] at * <;> simp only [epv_leaf] <;> epv_semi_su_clamp
+  epv_semi_su_split <;> epv_semi_su_clamp
 
 /-! ### family 3 : vpart1,  s₃ = 1 - η² -/
 
@@ -210,17 +201,14 @@ theorem fam3_g_inside (p : SuFam3.P) (x τ : ℝ) (h0 : tiny ≤ p.eta) (h1 : p.
     SuFam3.g p x τ = Real.sqrt ((1 - p.eta * p.eta) * (p.epsilon + 1 / (p.eta * p.eta))) := by
   unfold tiny at h0
   unfold oneMinusTiny at h1
-  simp only [epv_tree]
-  split_ifs <;> simp only [epv_cond, not_le] at * <;> simp only [epv_leaf] <;> su_inside p.eta
+  epv_semi_su_split <;> epv_semi_su_inside p.eta
 
 theorem fam3_th_eq (p : SuFam3.P) (x τ : ℝ) :
     SuFam3.th p x τ = Real.arccos (Real.sqrt (3 / (3 + 4 * SuFam3.g p x τ ^ 2))) := by
-  simp only [epv_tree]
-  split_ifs <;> simp only [epv_leaf] <;> epv_semi_su_eq
+  epv_semi_su_split <;> epv_semi_su_eq
 
 theorem fam3_g_nonneg (p : SuFam3.P) (x τ : ℝ) : 0 ≤ SuFam3.g p x τ := by
-  simp only [epv_tree]
-  split_ifs <;> simp only [epv_cond, not_le] at * <;> simp only [epv_leaf] <;> su_nonneg p.eta
+  epv_semi_su_split <;> epv_semi_su_nonneg p.eta
 
 theorem fam3_dispersion (p : SuFam3.P) (x τ : ℝ) (hε : 0 ≤ p.epsilon)
     (h0 : tiny ≤ p.eta) (h1 : p.eta ≤ oneMinusTiny) :
@@ -242,8 +230,7 @@ theorem fam3_integrand (p : SuFam3.P) (x τ : ℝ) :
     SuFam3.vpart1 p x τ = mode (W_v1 p) (1 - p.eta * p.eta) (SuFam3.g p 0 0) (SuFam3.th p 0 0) x τ := by
   change SuFam3.vpart1 p x τ = mode (W_v1 p) (1 - p.eta * p.eta) (SuFam3.g p x τ) (SuFam3.th p x τ) x τ
   unfold W_v1 tiny mode
-  simp only [epv_tree]
-  split_ifs <;> simp only [epv_cond] at * <;> simp only [epv_leaf] <;> epv_semi_su_clamp
+  epv_semi_su_split <;> epv_semi_su_clamp
 
 /-! ### assembly of u and v from the four integrals -/
 
@@ -253,14 +240,12 @@ def rt3opi : ℝ := (1241482303990085 : ℝ) / 2251799813685248
 theorem usol_shape (p : SuUsol.P) :
     SuUsol.val p = 1 - 2 * rt3opi * p.I_upart1 - rt3opi * Real.exp (-p.tau) * p.I_upart2 := by
   unfold rt3opi
-  simp only [epv_tree]
-  split_ifs <;> simp only [epv_leaf] <;> epv_semi_su_eq
+  epv_semi_su_split <;> epv_semi_su_eq
 
 theorem vsol_shape (p : SuVsol.P) :
     SuVsol.val p = p.uans - 2 * rt3opi * p.I_vpart1 + rt3opi * Real.exp (-p.tau) * p.I_vpart2 := by
   unfold rt3opi
-  simp only [epv_tree]
-  split_ifs <;> simp only [epv_leaf] <;> epv_semi_su_eq
+  epv_semi_su_split <;> epv_semi_su_eq
 
 /-! ### the modes solve the system -/
 
